@@ -376,6 +376,20 @@ impl ChunkFooter {
     fn is_empty(&self) -> bool {
         ptr::eq(self, EMPTY_CHUNK.get().as_ptr())
     }
+
+    // Store a new bump pointer for this chunk.
+    //
+    // The canonical empty chunk is shared by every `Bump` that has not yet
+    // allocated a chunk of its own, on every thread, so it must never be
+    // written to -- not even with the value it already holds -- or arenas on
+    // different threads race with each other. Its bump pointer can never move
+    // anyway, since it has no capacity.
+    #[inline]
+    fn set_ptr(&self, ptr: NonNull<u8>) {
+        if !self.is_empty() {
+            self.ptr.set(ptr);
+        }
+    }
 }
 
 impl<const MIN_ALIGN: usize> Default for Bump<MIN_ALIGN> {
@@ -1227,7 +1241,7 @@ impl<const MIN_ALIGN: usize> Bump<MIN_ALIGN> {
                         // to its original value upon entry to this method
                         // (reclaiming any alignment padding we may have
                         // added).
-                        current_ptr.set(rewind_ptr);
+                        current_footer_p.as_ref().set_ptr(rewind_ptr);
                         #[cfg(bumpalo_verif)]
                         verif_hooks::on_store(current_footer_p.as_ptr() as usize);
                     } else {
@@ -1343,7 +1357,7 @@ impl<const MIN_ALIGN: usize> Bump<MIN_ALIGN> {
                         // to its original value upon entry to this method
                         // (reclaiming any alignment padding we may have
                         // added).
-                        current_ptr.set(rewind_ptr);
+                        current_footer_p.as_ref().set_ptr(rewind_ptr);
                         #[cfg(bumpalo_verif)]
                         verif_hooks::on_store(current_footer_p.as_ptr() as usize);
                     } else {
@@ -1991,7 +2005,7 @@ impl<const MIN_ALIGN: usize> Bump<MIN_ALIGN> {
             debug_assert!(!aligned_ptr.is_null());
             let aligned_ptr = NonNull::new_unchecked(aligned_ptr);
 
-            footer.ptr.set(aligned_ptr);
+            footer.set_ptr(aligned_ptr);
             #[cfg(bumpalo_verif)]
             verif_hooks::on_store(footer_ptr.as_ptr() as usize);
             Some(aligned_ptr)
@@ -2261,7 +2275,7 @@ impl<const MIN_ALIGN: usize> Bump<MIN_ALIGN> {
                 "bump pointer {ptr:#p} should be aligned to the minimum alignment of {MIN_ALIGN:#x}"
             );
             let ptr = NonNull::new_unchecked(ptr);
-            self.current_chunk_footer.get().as_ref().ptr.set(ptr);
+            self.current_chunk_footer.get().as_ref().set_ptr(ptr);
             #[cfg(bumpalo_verif)]
             verif_hooks::on_store(self.current_chunk_footer.get().as_ptr() as usize);
         }
@@ -2349,7 +2363,7 @@ impl<const MIN_ALIGN: usize> Bump<MIN_ALIGN> {
                 is_pointer_aligned_to(new_ptr.as_ptr(), MIN_ALIGN),
                 "bump pointer {new_ptr:#p} should be aligned to the minimum alignment of {MIN_ALIGN:#x}"
             );
-            footer.ptr.set(new_ptr);
+            footer.set_ptr(new_ptr);
             #[cfg(bumpalo_verif)]
             verif_hooks::on_store(footer as *const ChunkFooter as usize);
 
